@@ -1,9 +1,10 @@
 #!/bin/sh
 # re-run the check of each kept seeded change against /repo HEAD + patch (scratch worktree); prints one line per seed
+#   tools/recheck_seeds.sh [Cnn ...]   -- only the seeds of these properties
 for d in /verif/seeded/*/; do
   id=$(basename $d)
   prop=$(python3 -c "import json;print(json.load(open('$d/meta.json'))['property'])")
-  extra=""
+  if [ $# -gt 0 ]; then case " $* " in *" $prop "*) ;; *) continue;; esac; fi
   [ "$id" = "C05-a" ] && prop="C09"
   dir=/tmp/seedre.$id.$$
   git -C /repo worktree add --detach "$dir" HEAD -q || continue
